@@ -57,6 +57,9 @@ def pool(variant, maxlen):
              ("2020-01-01T00:00:00", "dateTime"), ("2020-01-01T00:00:00Z", "dateTime"), ("2020-01-01T00:00:00+00:00", "dateTime"), ("2020-13-45", "date"), ("P1D", "duration"), ("PT24H", "duration"),
              ("AQID", "base64Binary"), ("0a", "hexBinary"), ("0A", "hexBinary"), ("x", "anyURI")]
     T += [lit(v, dt=XSD + d) for v, d in typed]
+    # multi-line literals ending in / containing quotes (the long-quote n3 form)
+    T += [lit('a\nb"'), lit('line one\nline two"', lang="en"), lit('a\nb"', dt="http://ex.example/dt"), lit('a\nb""'), lit('\n"'), lit('a\nb"""'), lit("a\nb\\"), lit('"\n'), lit("a\nb'"),
+          lit("''" + "'\n"), lit('a\r"')]
     T += [lit("v", dt="http://ex.example/dt"), lit("v", dt="http://ex.example/DT"), lit("<b>x</b>", dt="http://www.w3.org/1999/02/22-rdf-syntax-ns#XMLLiteral")]
     classes = ["plain", "dquote", "squote", "backslash", "LF", "CR", "TAB", "nonASCII", "nonBMP", "space", "gt"]
     for i, cs in enumerate(shapes.class_strings(maxlen, classes)):
